@@ -45,8 +45,8 @@ ASSUMPTIONS = [
 
 def budget(tier):
     if tier == 'thorough':
-        return {'seeds': 60000, 'wall': 840, 'chunk': 100}
-    return {'seeds': 6000, 'wall': 150, 'chunk': 50}
+        return {'seeds': 400000, 'wall': 900, 'chunk': 100}
+    return {'seeds': 30000, 'wall': 200, 'chunk': 50}
 
 
 # ------------------------------------------------------------------------------------ workload
